@@ -725,3 +725,14 @@ mod tests {
         assert_eq!(responses, [peers[5], peers[4], peers[3]]);
     }
 }
+
+/// Verification hooks (feature `verif`).
+#[cfg(feature = "verif")]
+impl<T: Clone + Into<Vec<u8>>> FindNodeContext<T> {
+    /// Recompute the private in-flight accounting from `pending` (no peer discounted yet); used after a
+    /// harness populated the public fields directly.
+    pub fn rebuild_accounting_verif(&mut self) {
+        self.pending_responses = self.pending.len();
+        self.timed_out.clear();
+    }
+}
